@@ -85,11 +85,12 @@ async fn client_case(d: Duration, reply_at: Option<Duration>) -> Result<(), Stri
 }
 
 /// C05, "time the request spent queued before transmission counts against the deadline": with an in-flight
-/// maximum of 1, call B (deadline D = 400 ms) waits 200 ms of real time behind call A before it is transmitted
+/// maximum of 1, call B (deadline D = 2 s) waits 1 s of real time behind call A before it is transmitted
 /// (`Context::deadline` is a std Instant, so the wait has to be real); the timer armed at transmission must then
-/// have about 200 ms left: still pending 100 ms later, failed 300 ms later.
+/// have about 1 s left: still pending 0.5 s later, failed 1.5 s later (the margins tolerate half a second of
+/// scheduling noise on a loaded machine).
 async fn client_queued_case() -> Result<(), String> {
-    let what = "client: in-flight maximum 1, call B (deadline in 400 ms) queued for 200 ms behind call A";
+    let what = "client: in-flight maximum 1, call B (deadline in 2 s) queued for 1 s behind call A";
     let (tx, mut rx): (ClientEnd, ServerEnd) = transport::channel::unbounded();
     let mut cfg = client::Config::default();
     cfg.max_in_flight_requests = 1;
@@ -105,14 +106,14 @@ async fn client_queued_case() -> Result<(), String> {
         _ => return Err(format!("C05 {what}: request A was not transmitted")),
     };
     let mut ctx_b = context::current();
-    ctx_b.deadline = Instant::now() + Duration::from_millis(400);
+    ctx_b.deadline = Instant::now() + Duration::from_millis(2000);
     let cb = client.clone();
     let call_b = tokio::spawn(async move { cb.call(ctx_b, "B".to_string()).await });
     settle().await;
     if rx.next().now_or_never().is_some() {
         return Err(format!("C11 {what}: request B was transmitted while A holds the only slot"));
     }
-    std::thread::sleep(Duration::from_millis(200));
+    std::thread::sleep(Duration::from_millis(1000));
     rx.send(Response { request_id: id_a, message: Ok("reply".to_string()) }).await.map_err(|e| e.to_string())?;
     settle().await;
     match rx.next().now_or_never() {
@@ -120,13 +121,13 @@ async fn client_queued_case() -> Result<(), String> {
         _ => return Err(format!("C05 {what}: request B was not transmitted once A was answered")),
     }
     let t0 = tokio::time::Instant::now();
-    advance_to(t0, Duration::from_millis(100)).await;
+    advance_to(t0, Duration::from_millis(500)).await;
     if call_b.is_finished() {
-        return Err(format!("C05 {what}: B was resolved 100 ms after its transmission, 300 ms into a 400 ms deadline"));
+        return Err(format!("C05 {what}: B was resolved 0.5 s after its transmission, 1.5 s into a 2 s deadline"));
     }
-    advance_to(t0, Duration::from_millis(300)).await;
+    advance_to(t0, Duration::from_millis(1500)).await;
     if !call_b.is_finished() {
-        return Err(format!("C05 {what}: B is still pending 300 ms after its transmission, 500 ms into a 400 ms deadline: the time spent queued was not counted"));
+        return Err(format!("C05 {what}: B is still pending 1.5 s after its transmission, 2.5 s into a 2 s deadline: the time spent queued was not counted"));
     }
     match call_b.await.map_err(|e| e.to_string())? {
         Err(RpcError::DeadlineExceeded) => {}
@@ -288,7 +289,8 @@ async fn server_case(d: Duration, finish_at: Option<Duration>, throttled: bool) 
 async fn deadlines_enforced_and_never_early() {
     let mut evaluations = 0u64;
     let mut failures: Vec<String> = vec![];
-    let ds = [Duration::from_millis(50), Duration::from_secs(1), Duration::from_secs(10), Duration::from_secs(3600)];
+    // the smallest deadline leaves 0.2 s of real-time slack at the 0.8 D probe (the deadline is a std Instant)
+    let ds = [Duration::from_secs(1), Duration::from_secs(10), Duration::from_secs(60), Duration::from_secs(3600)];
     for d in ds {
         for reply_at in [None, Some(d.mul_f64(0.5)), Some(d.mul_f64(1.1))] {
             evaluations += 1;
